@@ -114,14 +114,9 @@ Definition pstep (st : pbuf) (o : pop) : pbuf * nat :=
 
 Definition prun (ops : list pop) (st : pbuf) : pbuf := fold_left (fun s o => fst (pstep s o)) ops st.
 
-(* the content BufferBatchGetter sees from the pipelined buffer for a key list *)
-Fixpoint p_view_keys (st : pbuf) (keys : list key) : list kv :=
-  match keys with
-  | [] => []
-  | k :: r => match p_lookup st k with Some v => (k, v) :: p_view_keys st r | None => p_view_keys st r end
-  end.
+(* BufferBatchGetter over the pipelined buffer: its buffer side is the map PipelinedMemDB.BatchGet returns *)
 Definition pu_batch_get (snap : list kv) (st : pbuf) (keys : list key) : list key * list kv :=
-  buffer_batch_get snap (p_view_keys st keys) keys.
+  buffer_batch_get snap (fst (p_batch_get st keys)) keys.
 
 (* a wrong reading of the cache, for a regression witness only: a cached empty value (flushed deletion)
    treated like "not in the flushed store" *)
